@@ -11,7 +11,7 @@ pub fn spec() -> PropSpec {
     PropSpec {
         id: "C03",
         level: "model_checking",
-        rule: "enumeration of (pre-state: empty / populated over 2 contracts with keys of different lengths incl. [MAX], [0,MAX], [] / partial state erroring on unknown contracts) x declared mutation sets (none, value, deletion, two keys, carry target [1,MIN], empty key) x computed mutations from a first-pass data-output leaf (none, fresh key, key colliding with a declared one) x read request (4 read ops x contract {own, other mutated, other unmutated, unknown} x start key {[0],[1],[MAX],[0,MAX],[MAX,MAX],[]} x count {0,1,2,3}) x placement of the reading node (single leaf, root, inner, diamond with one deferred and one non-deferred parent, non-topological chain 2->1->0); plus pairs of readers of one start key with different counts/views in one graph level and in two solutions through the two-pass entry point and the two run modes by hand. Oracle: every value returned to a read, echoed back through a pre-state read, equals the overlay reference; pass attribution from the echo order and from the per-call logs; verdict/gas/mutations as in C01. states = distinct cases, transitions = echo records observed. non-trivial = some read op executed; distinct by full case",
+        rule: "enumeration of (pre-state: empty / populated over 2 contracts with keys of different lengths incl. [MAX], [0,MAX], [] / partial state erroring on unknown contracts) x declared mutation sets (none, value, deletion, two keys, carry target [1,MIN], empty key) x computed mutations from a first-pass data-output leaf (none, fresh key, key colliding with a declared one) x read request (4 read ops x contract {own, other mutated, other unmutated, unknown} x start key {[0],[1],[2],[MAX],[MAX-1],[0,MAX],[MAX,MAX],[1,MIN],[0,0,MAX],[]} x count {0..4 (thorough 5)} x (thorough) a third solution of the reader's contract mutating fresh keys) x placement of the reading node (single leaf, root, inner, diamond with one deferred and one non-deferred parent, non-topological chain 2->1->0); plus pairs of readers of one start key with different counts/views in one graph level and in two solutions through the two-pass entry point and the two run modes by hand. Oracle: every value returned to a read, echoed back through a pre-state read, equals the overlay reference; pass attribution from the echo order and from the per-call logs; verdict/gas/mutations as in C01. states = distinct cases, transitions = echo records observed. non-trivial = some read op executed; distinct by full case",
         assumptions: &[
             "the mock state's key successor and 'range read = iterated single reads' convention (that of the repository's own test state)",
             "fallback reads that the post-state overlay issues against the pre-state are implementation detail and not compared; only what the program receives is",
@@ -105,13 +105,18 @@ fn declared_menu() -> Vec<Vec<(Vec<W>, Vec<W>)>> {
 
 fn cases(tier: Tier, mut f: impl FnMut(u64, CkCase)) {
     let mut i = 0u64;
-    let counts: &[W] = if tier == Tier::Thorough { &[0, 1, 2, 3, 4] } else { &[0, 1, 2, 3] };
-    let mut keys: Vec<Vec<W>> = vec![vec![0], vec![1], vec![MAX], vec![0, MAX], vec![MAX, MAX], vec![]];
-    if tier == Tier::Thorough {
-        keys.extend([vec![2], vec![MAX - 1], vec![1, MIN], vec![0, 0, MAX]]);
-    }
+    let counts: &[W] = if tier == Tier::Thorough { &[0, 1, 2, 3, 4, 5] } else { &[0, 1, 2, 3, 4] };
+    let keys: Vec<Vec<W>> = vec![vec![0], vec![1], vec![MAX], vec![0, MAX], vec![MAX, MAX], vec![], vec![2], vec![MAX - 1], vec![1, MIN], vec![0, 0, MAX]];
+    // a further solution of the reader's contract C1 whose mutations must be overlaid as well
+    // (fresh keys only: agreeing / conflicting proposals for one slot are C04's subject)
+    let extra: Vec<Option<Vec<(Vec<W>, Vec<W>)>>> = if tier == Tier::Thorough {
+        vec![None, Some(vec![(vec![2], vec![6, 6])]), Some(vec![(vec![3], vec![]), (vec![MAX - 1], vec![6])])]
+    } else {
+        vec![None]
+    };
     let computed: Vec<Vec<(Vec<W>, Vec<W>)>> = vec![vec![], vec![(vec![2], vec![3])], vec![(vec![0], vec![3])]];
     for (pre, strict) in pre_states() {
+      for ex in &extra {
         for declared in declared_menu() {
             for comp in &computed {
                 for op in 0..4u8 {
@@ -128,19 +133,17 @@ fn cases(tier: Tier, mut f: impl FnMut(u64, CkCase)) {
                                     // solution 1: contract C2, declares [0]->[4], computes `comp` in pass 1
                                     let other = PredCase { nodes: vec![(u16::MAX, Role::LeafRaw(enc(comp)))], edges: vec![] };
                                     // computed mutations also for the own contract: a second leaf-only predicate on C1
-                                    f(
-                                        i,
-                                        CkCase {
-                                            preds: vec![p, other],
-                                            sols: vec![
-                                                SolCase { pred: 0, contract: 0xC1, data: vec![], mutations: declared.clone() },
-                                                SolCase { pred: 1, contract: 0xC2, data: vec![], mutations: vec![(vec![0], vec![4])] },
-                                            ],
-                                            pre: pre.clone(),
-                                            strict, short: false,
-                                            collect_all: false,
-                                        },
-                                    );
+                                    let mut preds = vec![p, other];
+                                    let mut sols = vec![
+                                        SolCase { pred: 0, contract: 0xC1, data: vec![], mutations: declared.clone() },
+                                        SolCase { pred: 1, contract: 0xC2, data: vec![], mutations: vec![(vec![0], vec![4])] },
+                                    ];
+                                    if let Some(m) = ex {
+                                        // third solution: contract C1 again, a trivially true predicate
+                                        preds.push(PredCase { nodes: vec![(u16::MAX, Role::LeafTrue)], edges: vec![] });
+                                        sols.push(SolCase { pred: 2, contract: 0xC1, data: vec![], mutations: m.clone() });
+                                    }
+                                    f(i, CkCase { preds, sols, pre: pre.clone(), strict, short: false, collect_all: false });
                                 }
                             }
                         }
@@ -148,6 +151,7 @@ fn cases(tier: Tier, mut f: impl FnMut(u64, CkCase)) {
                 }
             }
         }
+      }
     }
     // the read op directly preceded by `Push(1)` (address operand), at several placements
     for (declared, want) in [(vec![(vec![0], vec![7])], vec![7]), (vec![(vec![0], vec![])], vec![]), (vec![], vec![5])] {
@@ -242,7 +246,7 @@ fn cases(tier: Tier, mut f: impl FnMut(u64, CkCase)) {
 }
 
 fn run(cfg: &RunCfg, rep: &mut Report) {
-    rep.bound_completed = format!("full product of the listed menus{}", if cfg.tier == Tier::Thorough { " plus counts up to 4 and keys [2], [MAX-1], [1,MIN], [0,0,MAX]" } else { "" });
+    rep.bound_completed = format!("full product of the listed menus, counts 0..={}, 10 start keys{}", if cfg.tier == Tier::Thorough { 5 } else { 4 }, if cfg.tier == Tier::Thorough { ", x {no, one, two-mutation} further solution of the reader's contract" } else { "" });
     cases(cfg.tier, |i, case| {
         if cfg.mine(i) {
             wal::tick();
